@@ -51,7 +51,9 @@ def execute(case):
     out = {k: v for k, v in case.items() if k not in ("tree", "tree2") and v is not None}
     out["exc"] = "ok"
     try:
-        if case["kind"] == "transform":
+        if case["kind"] == "ctor":
+            exec_ctor(case, out)
+        elif case["kind"] == "transform":
             exec_transform(case, out)
         elif case["kind"] == "lazy":
             exec_lazy(case, out)
@@ -185,3 +187,11 @@ def exec_owner(case, out):
     d2 = Payload.get(t.ranks[lvl].getDefault())          # the rank of the deepest fiber reached (an empty tree has only its root)
     out["after_dflt"] = int(d1) if isinstance(d1, int) else (-997 if d1 is Fiber else -999)
     out["rank_dflt"] = int(d2) if isinstance(d2, int) else (-997 if d2 is Fiber else -998)
+
+
+def exec_ctor(case, out):
+    """a tensor built from an uncompressed nest WITHOUT a declared shape; the nest may be ragged across parents (sub-lists of one parent have equal lengths,
+    those of another parent may be longer): every stored coordinate must lie inside the shape the tensor reports"""
+    depth = case["depth"]
+    t = Tensor.fromUncompressed(IDS[:depth], case["nest"])
+    out["fibers"] = fibers_of(t)
